@@ -343,3 +343,119 @@ Proof.
         try lia; try reflexivity.
         all: try (specialize (Hkl ltac:(lia)); unfold d; lia).
 Qed.
+
+(* ---------------------------------------------------------------------------------- *)
+(* more array / list facts                                                            *)
+(* ---------------------------------------------------------------------------------- *)
+
+Lemma upd_length l : forall k v, length (upd l k v) = length l.
+Proof. induction l as [|x l IH]; intros [|k] v; cbn [upd length]; auto. Qed.
+
+Lemma nth_upd l : forall k v j,
+  nth j (upd l k v) 0 = if (j =? k)%nat && (j <? length l)%nat then v else nth j l 0.
+Proof.
+  induction l as [|x l IH]; intros k v j.
+  - destruct k; destruct j; cbn; try reflexivity; destruct (j =? k)%nat; reflexivity.
+  - destruct k as [|k]; destruct j as [|j]; cbn [upd nth length]; try reflexivity.
+    rewrite IH. reflexivity.
+Qed.
+
+Lemma concat_all_nil (l : list str) : (forall i, nth i l [] = []) -> concat l = [].
+Proof.
+  induction l as [|x l IH]; intro H; [reflexivity|].
+  cbn [concat]. rewrite (H 0%nat : x = []). apply IH. intro i. exact (H (S i)).
+Qed.
+
+Lemma concat_skipn_nil (ps : list str) m k : (forall j, (m <= j)%nat -> nth j ps [] = []) -> (m <= k)%nat ->
+  concat (skipn k ps) = [].
+Proof. intros H Hk. apply concat_all_nil. intro i. rewrite nth_skipn_add. apply H. lia. Qed.
+
+Lemma concat_firstn_tail (ps : list str) m k : (forall j, (m <= j)%nat -> nth j ps [] = []) -> (m <= k)%nat ->
+  concat (firstn k ps) = concat ps.
+Proof.
+  intros H Hk. pose proof (concat_split ps k) as Hs. rewrite (concat_skipn_nil ps m k H Hk), app_nil_r in Hs. symmetry. exact Hs.
+Qed.
+
+Lemma pre_tail (ps : list str) m k : (forall j, (m <= j)%nat -> nth j ps [] = []) -> (m <= k)%nat ->
+  pre k ps = len (concat ps).
+Proof. intros H Hk. unfold pre. rewrite (concat_firstn_tail ps m k H Hk). reflexivity. Qed.
+
+(* set one piece *)
+Definition setp (ps : list str) (k : nat) (s : str) : list str := splice ps k k s 0.
+
+Lemma nth_setp ps k s j : (k < length ps)%nat ->
+  nth j (setp ps k s) [] = if (j =? k)%nat then s else nth j ps [].
+Proof.
+  intro Hk. unfold setp, splice, middle. rewrite Nat.eqb_refl.
+  assert (Hf : length (firstn k ps) = k) by (apply firstn_length_le; lia).
+  destruct (Nat.eqb_spec j k) as [->|Hne].
+  - rewrite app_nth2 by lia. rewrite Hf, Nat.sub_diag. reflexivity.
+  - destruct (Nat.lt_ge_cases j k) as [Hlt|Hge].
+    + rewrite app_nth1 by lia. apply nth_firstn_lt. exact Hlt.
+    + rewrite app_nth2 by lia. rewrite Hf. destruct (j - k)%nat as [|i] eqn:Ei; [lia|].
+      cbn [app nth]. rewrite nth_skipn_add. f_equal. lia.
+Qed.
+
+Lemma setp_PW ps n k s : PW ps n -> (1 <= k < 11)%nat -> PW (setp ps k s) (Nat.max n (S k)).
+Proof.
+  intros [Hlen Hn Hsch Htail] Hk. split.
+  - unfold setp. rewrite splice_length; lia.
+  - lia.
+  - rewrite nth_setp by lia. destruct (Nat.eqb_spec 0 k); [lia|exact Hsch].
+  - intros j Hj. rewrite nth_setp by lia. destruct (Nat.eqb_spec j k); [lia|]. apply Htail. lia.
+Qed.
+
+(* the separator start_part writes in front of the text of a part *)
+Definition sepc (k : nat) : str :=
+  if (k =? P_PORT)%nat then [58] else if (k =? P_QUERY)%nat then [63] else if (k =? P_FRAGMENT)%nat then [35] else [].
+
+(* ---------------------------------------------------------------------------------- *)
+(* writing a part at the end of the string: start_part, append, save_part             *)
+(* ---------------------------------------------------------------------------------- *)
+
+(* the object's last written part is m-1 >= HOST; a part new_pt >= m is started, text appended, saved *)
+Lemma start_append_save ps m f c new_pt v s0 :
+  PW ps m -> (6 <= m)%nat -> (m <= new_pt <= 10)%nat ->
+  s_r s0 = conc ps m f c -> s_last s0 = (m - 1)%nat ->
+  let s1 := ser_save_part (do_append (ser_start_part s0 new_pt) v) in
+  s_r s1 = conc (setp ps new_pt (sepc new_pt ++ v)) (S new_pt) f c /\ s_last s1 = new_pt.
+Proof.
+  intros HPW Hm Hnp Hr Hlast. destruct HPW as [Hlen Hn Hsch Htail].
+  unfold ser_start_part. rewrite Hlast, Hr.
+  destruct (Nat.eqb_spec (m - 1)%nat P_PATH) as [E8|E8]; destruct (Nat.eqb_spec new_pt P_PATH) as [N8|N8];
+    cbn [andb]; try (unfold P_PATH in *; lia).
+  all: destruct (Nat.eqb_spec (m - 1)%nat P_SCHEME) as [E0|_]; [unfold P_SCHEME in E0; lia|].
+  all: destruct (Nat.eqb_spec (m - 1)%nat P_USERNAME) as [E2|_]; [unfold P_USERNAME in E2; lia|].
+  all: destruct (Nat.eqb_spec (m - 1)%nat P_PASSWORD) as [E3|_]; [unfold P_PASSWORD in E3; lia|].
+  all: cbv zeta.
+  all: set (L := len (r_norm (conc ps m f c))).
+  all: assert (HL : L = len (concat ps)) by reflexivity.
+  all: set (r2 := w_ends (conc ps m f c) (fill_range (r_ends (conc ps m f c)) (S (m - 1)%nat) new_pt L)).
+  all: set (r3 := if (new_pt =? P_PORT)%nat then app_norm r2 [58]
+                  else if (new_pt =? P_QUERY)%nat then app_norm r2 [63]
+                  else if (new_pt =? P_FRAGMENT)%nat then app_norm r2 [35] else r2).
+  all: assert (H3 : r3 = mk_repr (concat ps ++ sepc new_pt) (fill_range (ends_of ps m) (S (m - 1)%nat) new_pt L) f c).
+  all: try (unfold r3, r2, sepc, app_norm, w_norm, w_ends, conc; cbn [r_norm r_ends r_flags r_segs];
+            destruct (new_pt =? P_PORT)%nat; [reflexivity|];
+            destruct (new_pt =? P_QUERY)%nat; [reflexivity|];
+            destruct (new_pt =? P_FRAGMENT)%nat; [reflexivity|]; rewrite app_nil_r; reflexivity).
+  all: unfold do_append, ser_save_part, w_tgt, w_last, w_r; cbn [s_tgt s_r s_last s_file s_use s_strp s_pse s_curr].
+  all: split; [|reflexivity].
+  all: rewrite H3; unfold app_norm, set_e, w_norm, w_ends, conc; cbn [r_norm r_ends r_flags r_segs]; f_equal.
+  all: try (unfold setp; rewrite splice_concat, (concat_firstn_tail ps m new_pt Htail) by lia;
+            rewrite (concat_skipn_nil ps m (S new_pt) Htail) by lia; rewrite app_nil_r, app_assoc; reflexivity).
+  all: assert (Hsl : length (setp ps new_pt (sepc new_pt ++ v)) = length ps) by (unfold setp; apply splice_length; lia).
+  all: apply (nth_ext _ _ 0 0);
+       [rewrite upd_length; unfold fill_range; rewrite fill_from_length, !ends_of_length; lia|].
+  all: intros k Hk; rewrite upd_length in Hk; unfold fill_range in Hk; rewrite fill_from_length, ends_of_length in Hk by lia.
+  all: rewrite nth_upd, nth_fill_range; unfold fill_range; rewrite fill_from_length, ends_of_length by lia.
+  all: rewrite !nth_ends_of by lia.
+  all: unfold setp; rewrite pre_splice by (lia || (intro; lia)).
+  all: rewrite len_app, len_app.
+  all: destruct (Nat.eqb_spec k new_pt); destruct (Nat.ltb_spec k (length ps)); cbn [andb];
+       destruct (Nat.leb_spec (S (m - 1)%nat) k); destruct (Nat.ltb_spec k new_pt); cbn [andb];
+       destruct (Nat.ltb_spec k m); destruct (Nat.ltb_spec k (S new_pt));
+       destruct (Nat.leb_spec (S k) new_pt); try lia; try reflexivity.
+  all: rewrite ?len_app, ?(pre_tail ps m new_pt Htail), ?(pre_tail ps m (S k) Htail),
+            ?(pre_tail ps m (S new_pt) Htail) by lia; lia.
+Qed.
